@@ -107,6 +107,41 @@ def readout_units(ctx, units, prelude):
         size, raw = extract.text_of(vals["l_" + u.name])
         u.label = raw[:-1].decode("latin-1")
         u.has_origin = bool(vals["o_" + u.name][2])
+    # Named units of identical dimension and magnitude, none with an origin: is there ANY criterion
+    # left that orders them (the documented limitation says there need not be)?  Asked of the
+    # compiler pair by pair - whatever mechanism the library uses - and recorded as a class id:
+    # two units with equal (dim, mag, has_origin, tiebreak) cannot share a pack.
+    from . import model
+    groups = {}
+    for u in units:
+        u.tiebreak = 0
+        if not u.has_origin:
+            groups.setdefault((model.key(u.dim), model.key(u.mag)), []).append(u)
+    ex = extract.Extractor(ctx, prelude=prelude, tag="atoms_ties")
+    pairs = []
+    for g in groups.values():
+        for i, a in enumerate(g):
+            for b in g[i + 1:]:
+                pairs.append((a, b))
+                ex.add("tie_%s_%s" % (a.name, b.name), "bool",
+                       "(au::InOrderFor<au::UnitProduct, au::%s, au::%s>::value != au::InOrderFor<au::UnitProduct, au::%s, au::%s>::value)" % (a.name, b.name, b.name, a.name),
+                       group=len(pairs))
+    if pairs:
+        vals = ex.run()
+        parent = {}
+
+        def find(x):
+            while parent.get(x, x) != x:
+                x = parent[x]
+            return x
+        for a, b in pairs:
+            v = vals["tie_%s_%s" % (a.name, b.name)]
+            if v[0] == "error" or not v[2]:
+                parent[find(b.name)] = find(a.name)
+        for g in groups.values():
+            classes = sorted({find(u.name) for u in g})
+            for u in g:
+                u.tiebreak = classes.index(find(u.name))
     return units
 
 
